@@ -213,9 +213,20 @@ def run(ctx):
             ebg = ExprBuilder(g)
             need = ["add_searches", "add_searches_with_match", "add_bytes_searched"]
             cs = {n: g.calls_to(STATS + "::" + n) for n in need}
-            sw = cond_switches(g, lambda e: e.k == "bin" and e[1] == "Gt" and mentions_field(e, adt, "match_count"), ebg)
-            if all(cs.values()) and sw and not guarded(g, [cs["add_searches_with_match"][0].bb], sw, True) and \
-                    guarded(g, [cs["add_searches"][0].bb], sw, True):
+            # value table over match_count ∈ {0, 2}: what the aggregate receives (a call that does not run adds nothing)
+            from ..flow import table as _tb, operand_at as _oa
+            eff = {}
+            for row, sx in _tb(facts, g, fields={(adt, "match_count"): [I(0), I(2)]}):
+                cnt = row[("field", (adt, "match_count"))][1]
+                got = {}
+                for n in need:
+                    ran = [c for c in cs[n] if c.bb in sx.exec_blocks]
+                    got[n] = (_oa(sx, ran[0].bb, None, ran[0].args[1]) if ran else I(0))
+                eff[cnt] = got
+            okf = all(cs.values()) and eff.get(0, {}).get("add_searches") == I(1) and eff.get(2, {}).get("add_searches") == I(1) and \
+                eff[0]["add_searches_with_match"] == I(0) and eff[2]["add_searches_with_match"] == I(1) and \
+                all(any(c.bb in sx_.exec_blocks for c in cs["add_bytes_searched"]) for _, sx_ in _tb(facts, g, fields={(adt, "match_count"): [I(0), I(2)]}))
+            if okf:
                 r.ok("%s|finish" % name, "finish: searches += 1; searches_with_match += 1 iff match_count > 0; bytes", fn=g)
             else:
                 r.bad("%s|finish" % name, "%s sink: finish() does not update the aggregate statistics consistently" % name, fn=g,
